@@ -534,8 +534,11 @@ class RelativeJSONPointer:
         else:
             index = 0
 
-        # Pointer or '#'. Empty string is OK.
-        _pointer = match.group("POINTER").strip()
+        # Pointer or '#'. Empty string is OK. Blank space after a reference token
+        # is part of that token, so it is only dropped around '#' and on its own.
+        _pointer = match.group("POINTER")
+        if _pointer.strip() in ("", "#"):
+            _pointer = _pointer.strip()
         pointer = (
             JSONPointer(
                 _pointer,
